@@ -195,17 +195,22 @@ peg::parser! {
 
         rule expr() -> Expr = or_expr()
 
+        // Left-factored: the left operand is parsed once (no re-parse on backtrack)
         rule or_expr() -> Expr
-            = x:and_expr() _ ci("OR") _ y:or_expr() {
-                Expr::Or(Box::new(x), Box::new(y))
+            = x:and_expr() rest:( _ ci("OR") _ y:or_expr() { y } )? {
+                match rest {
+                    Some(y) => Expr::Or(Box::new(x), Box::new(y)),
+                    None => x,
+                }
             }
-            / and_expr()
 
         rule and_expr() -> Expr
-            = x:factor() _ ci("AND") _ y:and_expr() {
-                Expr::And(Box::new(x), Box::new(y))
+            = x:factor() rest:( _ ci("AND") _ y:and_expr() { y } )? {
+                match rest {
+                    Some(y) => Expr::And(Box::new(x), Box::new(y)),
+                    None => x,
+                }
             }
-            / factor()
 
         rule factor() -> Expr
             = ci("NOT") _ x:factor() { Expr::Not(Box::new(x)) }
@@ -399,7 +404,63 @@ enum Clause {
 }
 
 pub fn parse(input: &str) -> Result<Command, ParseError> {
+    check_expr_nesting(input)?;
     sneldb_query::query(input).map_err(map_peg_error)
+}
+
+/// Maximum parenthesis depth accepted in a WHERE / FILTER expression.
+const MAX_EXPR_PAREN_DEPTH: usize = 64;
+/// Maximum number of NOT / AND / OR keywords accepted in one command.
+const MAX_EXPR_OPERATORS: usize = 128;
+
+/// The expression rules (or_expr / and_expr / factor) recurse once per
+/// parenthesis and once per NOT / AND / OR, so the nesting of the input becomes
+/// native stack depth. Reject inputs beyond the limits above with a linear scan
+/// before the PEG parser runs. String literals are skipped the same way the
+/// grammar reads them (no escapes); keywords are whole runs of letters, as in `ci`.
+pub(super) fn check_expr_nesting(input: &str) -> Result<(), ParseError> {
+    let bytes = input.as_bytes();
+    let (mut depth, mut operators) = (0usize, 0usize);
+    let mut i = 0;
+    while i < bytes.len() {
+        match bytes[i] {
+            b'"' => {
+                i += 1;
+                while i < bytes.len() && bytes[i] != b'"' {
+                    i += 1;
+                }
+            }
+            b'(' => {
+                depth += 1;
+                if depth > MAX_EXPR_PAREN_DEPTH {
+                    return Err(ParseError::UnexpectedToken(format!(
+                        "expression nested deeper than {} parentheses",
+                        MAX_EXPR_PAREN_DEPTH
+                    )));
+                }
+            }
+            b')' => depth = depth.saturating_sub(1),
+            c if c.is_ascii_alphabetic() => {
+                let start = i;
+                while i + 1 < bytes.len() && bytes[i + 1].is_ascii_alphabetic() {
+                    i += 1;
+                }
+                let word = &input[start..=i];
+                if eq_ci(word, "NOT") || eq_ci(word, "AND") || eq_ci(word, "OR") {
+                    operators += 1;
+                    if operators > MAX_EXPR_OPERATORS {
+                        return Err(ParseError::UnexpectedToken(format!(
+                            "expression has more than {} NOT/AND/OR operators",
+                            MAX_EXPR_OPERATORS
+                        )));
+                    }
+                }
+            }
+            _ => {}
+        }
+        i += 1;
+    }
+    Ok(())
 }
 
 fn map_peg_error(e: peg::error::ParseError<peg::str::LineCol>) -> ParseError {
